@@ -91,13 +91,17 @@ func renderings(mode string, line int) []xast.Opts {
 	f := xast.Opts{Abbrev: false, Space: " "}
 	switch mode {
 	case "both":
-		return []xast.Opts{a, f}
+		l := f
+		l.LongNum = true
+		return []xast.Opts{a, f, l}
 	case "abbr":
 		return []xast.Opts{a}
 	case "full":
 		return []xast.Opts{f}
 	}
-	// alt: alternate by line number
+	// alt: alternate by line number; every fifth line writes its number literals in the long form
+	long := line%5 == 0
+	a.LongNum, f.LongNum = long, long
 	if line%2 == 0 {
 		return []xast.Opts{a}
 	}
